@@ -19,6 +19,7 @@ mod c15;
 mod c08;
 mod c07;
 mod c16;
+mod c14;
 
 use common::Tier;
 
@@ -48,6 +49,15 @@ fn main() {
         "C08" => c08::run(tier),
         "C07" => c07::run(tier),
         "C16" => c16::run(tier),
+        "C14" => c14::run(tier),
+        "parse" => {
+            use std::convert::TryFrom;
+            let t = &args[2];
+            println!("fact:   {:?}", biscuit_auth::builder::Fact::try_from(t.as_str()).map(|f| f.to_string()));
+            println!("rule:   {:?}", biscuit_auth::builder::Rule::try_from(t.as_str()).map(|f| f.to_string()));
+            println!("check:  {:?}", biscuit_auth::builder::Check::try_from(t.as_str()).map(|f| format!("{f} {:?}", f)));
+            println!("block:  {:?}", biscuit_auth::builder::BlockBuilder::new().code(t).map(|f| f.to_string()));
+        }
         "bind" => { let r = samples::bind_or_die(); println!("rsig ok {} rejected {} ; rdl validations {} exec-error {} skipped {:?}", r.rsig_accepted, r.rsig_rejected, r.rdl_validations, r.rdl_exec_error_validations, r.rdl_skipped); }
         other => {
             eprintln!("unknown property {other}");
